@@ -1,0 +1,696 @@
+//go:build verif
+
+// Contracts for the verifier in /verif (comment-only file; compiled only with -tags verif).
+// The small public API of uTLS around the hello and the session: the UConn setters (u_conn.go), the built-in
+// session extensions (u_session_ticket.go, u_pre_shared_key.go), the ClientSessionState constructor/accessors
+// (u_public.go) and the deprecated KeySharesParameters stubs (u_alias.go).
+// Properties: C01 (edits are visible), C19/C20 (sessions are used as given, documented panics only), C31/C35
+// (public views keep every field).
+
+package tls
+
+// =============================================================================================
+// u_conn.go: hello setters (C01)
+
+// SetClientRandom: a 32-byte r is COPIED into a fresh Hello.Random (later writes to r do not change the hello);
+// any other length is rejected and the hello is not touched.
+//@ func (*UConn).SetClientRandom
+//@   property C01
+//@   requires uconn != nil && uconn.HandshakeState.Hello != nil
+//@   modifies uconn.HandshakeState.Hello.Random
+//@   ensures badlen: len(r) != 32 ==> ret != nil && uconn.HandshakeState.Hello.Random == old(uconn.HandshakeState.Hello.Random)
+//@   ensures ok: len(r) == 32 ==> ret == nil && len(uconn.HandshakeState.Hello.Random) == 32 && fresh(uconn.HandshakeState.Hello.Random)
+//@   ensures bytes: len(r) == 32 ==> forall j in 0..32: uconn.HandshakeState.Hello.Random[j] == r[j]
+//@   ensures input: unchanged(r)
+//@   note the edit becomes visible in Hello.Raw with the next MarshalClientHello (every BuildHandshakeState re-marshals: buildHandshakeState.marshalled, verif_contracts_client.go; bytes 6..38 of Raw are Hello.Random: verif_contracts_marshal.go)
+
+// SetSessionCache: installs the cache in the connection's Config and announces ticket support.
+//@ func (*UConn).SetSessionCache
+//@   property C20 C19
+//@   requires uconn != nil && uconn.Conn != nil && uconn.config != nil && uconn.HandshakeState.Hello != nil
+//@   modifies uconn.config.ClientSessionCache, uconn.HandshakeState.Hello.TicketSupported
+//@   ensures cache: uconn.config.ClientSessionCache == cache
+//@   ensures ticket: uconn.HandshakeState.Hello.TicketSupported
+//@   note the session controller is not touched: SetSessionCache is legal in every controller state (C20: any position in the call order)
+
+// RemoveSNIExtension records the wish (the list is filtered by removeSNIExtension on the first build) and, when the
+// hello has been built already, filters the list at once.
+//@ func (*UConn).RemoveSNIExtension
+//@   property C01 C20
+//@   requires uconn != nil
+//@   requires walk: rmpos(0) == 0 && forall j in 0..len(uconn.Extensions): rmpos(j+1) == rmpos(j) + ite(istype(uconn.Extensions[j], *SNIExtension), 0, 1)
+//@   note walk: precondition of removeSNIExtension (constrains only the uninterpreted counting function)
+//@   modifies uconn.omitSNIExtension, uconn.Extensions
+//@   ensures ok: ret == nil ==> uconn.omitSNIExtension
+//@   ensures rejected: ret != nil ==> uconn.omitSNIExtension == old(uconn.omitSNIExtension)
+//@   note the error case is exactly uconn.ClientHelloID == HelloGolang (struct comparison with a package-level variable of struct type, which specifications cannot name); stated here are the two outcomes: flag set and nil, or error and flag untouched
+//@   ensures applied_when_built: ret == nil && old(uconn.clientHelloBuildStatus != NotBuilt) ==> forall j in 0..len(uconn.Extensions): !istype(uconn.Extensions[j], *SNIExtension)
+//@   ensures deferred_when_unbuilt: ret == nil && old(uconn.clientHelloBuildStatus == NotBuilt) ==> uconn.Extensions == old(uconn.Extensions)
+//@   note applied_when_built (C01: an edit made between BuildHandshakeState and Handshake is visible in the bytes sent): once the extension list exists the request is carried out at once; before the first build it is recorded and carried out by buildHandshakeState next to applyPresetByID.
+//@   note History: before the fix "RemoveSNIExtension after a build takes effect" the flag was only consulted while clientHelloBuildStatus == NotBuilt, so a call after BuildHandshakeState returned nil and the rebuilt hello kept the server_name extension (HelloChrome_120: Build, RemoveSNIExtension() == nil, Build: Raw still contained "secret.example").
+
+// removeSNIExtension: order-preserving filter. rmpos(i) = number of non-SNI extensions among the first i (walk
+// function, see CONTRACTS.md): the new list has rmpos(n) elements and old element i, when kept, sits at rmpos(i).
+//@ uf rmpos(Int) Int
+//@ spec isSNI(x) = istype(x, *SNIExtension)
+//@ func (*UConn).removeSNIExtension
+//@   property C01
+//@   let E = uconn.Extensions
+//@   let n = len(uconn.Extensions)
+//@   requires uconn != nil
+//@   requires walk: rmpos(0) == 0 && forall j in 0..n: rmpos(j+1) == rmpos(j) + ite(isSNI(E[j]), 0, 1)
+//@   note walk: rmpos is an arbitrary function satisfying the recurrence of the running count (one always exists); not a restriction on callers
+//@   modifies uconn.Extensions
+//@   ensures fresh: fresh(uconn.Extensions)
+//@   ensures len: len(uconn.Extensions) == rmpos(n) && rmpos(n) <= n
+//@   ensures kept: forall i in 0..n: !isSNI(E[i]) ==> uconn.Extensions[rmpos(i)] == E[i]
+//@   ensures nosni: forall j in 0..len(uconn.Extensions): !isSNI(uconn.Extensions[j])
+//@   ensures from_old: forall j in 0..len(uconn.Extensions): exists i in 0..n: uconn.Extensions[j] == E[i]
+//@   ensures oldlist: forall i in 0..n: E[i] == old(E[i])
+//@   loop 0 invariant -1 <= $rangeindex && $rangeindex < n
+//@   loop 0 invariant len(filteredExts) == rmpos($k) && 0 <= rmpos($k) && rmpos($k) <= $k && cap(filteredExts) >= n && fresh(filteredExts)
+//@   loop 0 invariant forall i in 0..$k: !isSNI(E[i]) ==> filteredExts[rmpos(i)] == E[i] && rmpos(i) < rmpos($k)
+//@   loop 0 invariant forall j in 0..rmpos($k): !isSNI(filteredExts[j]) && exists i in 0..$k: filteredExts[j] == E[i]
+//@   note only the extension list is filtered: Hello.ServerName and config.ServerName keep the configured name (the C11 finding "RemoveSNIExtension: ServerName still reported", DESIGN.md section 9 no. 14, is about that and is not restated here)
+
+//@ func (*UConn).DidTls12Resume
+//@   property C19
+//@   requires uconn != nil && uconn.Conn != nil
+//@   pure
+//@   ensures ret <==> uconn.didResume
+
+// =============================================================================================
+// u_conn.go: session setters (C20). SC(s) is the representation invariant of the session controller
+// (verif_contracts_session.go); it is established by UClient/newSessionController and preserved by every method.
+// sessOff: resumption is switched off for this connection (the setters then return an error and change nothing).
+//@ spec sessOff(u) = u.config.SessionTicketsDisabled || u.config.ClientSessionCache == nil
+
+// SetSessionTicketExtension: "as given" -- the controller owns exactly the caller's extension object afterwards;
+// a nil extension is a no-op; the documented panic (overrideExtension's assertions) fires when a session was
+// already set or the hello is locked; without a session cache the call is an error.
+//@ func (*UConn).SetSessionTicketExtension
+//@   property C20 C19
+//@   let s = uconn.sessionController
+//@   requires uconn != nil && uconn.Conn != nil && uconn.config != nil && SC(uconn.sessionController)
+//@   panics when !sessOff(uconn) && sessionTicketExt != nil && (s.locked || s.state != NoSession)
+//@   modifies s.state, s.sessionTicketExt
+//@   ensures inv: SC(s)
+//@   ensures disabled: sessOff(uconn) ==> ret != nil && s.state == old(s.state) && s.sessionTicketExt == old(s.sessionTicketExt)
+//@   ensures noop: !sessOff(uconn) && sessionTicketExt == nil ==> ret == nil && s.state == old(s.state) && s.sessionTicketExt == old(s.sessionTicketExt)
+//@   ensures asgiven: !sessOff(uconn) && sessionTicketExt != nil ==> ret == nil && s.sessionTicketExt == sessionTicketExt
+//@   ensures ready: !sessOff(uconn) && sessionTicketExt != nil && ghost(initialized, sessionTicketExt) != 0 ==> s.state == SessionTicketExtInitialized
+//@   ensures notready: !sessOff(uconn) && sessionTicketExt != nil && ghost(initialized, sessionTicketExt) == 0 ==> s.state == NoSession
+//@   note ghost(initialized, x) != 0 <==> x.IsInitialized() (interface contract, /verif/contracts/trusted/session.vc)
+
+// SetPskExtension: same protocol for the TLS 1.3 extension; additionally announces ticket support in the hello.
+//@ func (*UConn).SetPskExtension
+//@   property C20 C19
+//@   let s = uconn.sessionController
+//@   let h = uconn.HandshakeState.Hello
+//@   requires uconn != nil && uconn.Conn != nil && uconn.config != nil && SC(uconn.sessionController)
+//@   requires hello: !sessOff(uconn) && pskExt != nil ==> uconn.HandshakeState.Hello != nil
+//@   panics when !sessOff(uconn) && pskExt != nil && (s.locked || s.state != NoSession)
+//@   modifies s.state, s.pskExtension, h.TicketSupported
+//@   ensures inv: SC(s)
+//@   ensures disabled: sessOff(uconn) ==> ret != nil && s.state == old(s.state) && s.pskExtension == old(s.pskExtension) && h.TicketSupported == old(h.TicketSupported)
+//@   ensures noop: !sessOff(uconn) && pskExt == nil ==> ret == nil && s.state == old(s.state) && s.pskExtension == old(s.pskExtension) && h.TicketSupported == old(h.TicketSupported)
+//@   ensures asgiven: !sessOff(uconn) && pskExt != nil ==> ret == nil && s.pskExtension == pskExt && h.TicketSupported
+//@   ensures ready: !sessOff(uconn) && pskExt != nil && ghost(initialized, pskExt) != 0 ==> s.state == PskExtInitialized
+//@   ensures notready: !sessOff(uconn) && pskExt != nil && ghost(initialized, pskExt) == 0 ==> s.state == NoSession
+
+// SetSessionState (deprecated, TLS 1.2 only): wraps the session in a fresh, initialized SessionTicketExtension
+// (anchor `built`: ticket and session exactly as stored in the ClientSessionState; nil gives an empty ticket body)
+// and hands it to SetSessionTicketExtension.
+//@ func (*UConn).SetSessionState
+//@   property C20 C19
+//@   let s = uconn.sessionController
+//@   requires uconn != nil && uconn.Conn != nil && uconn.config != nil && SC(uconn.sessionController)
+//@   requires has: session != nil ==> session.session != nil
+//@   note has comes from the code: session.session.ticket is read without a nil check, so SetSessionState(&ClientSessionState{}) is a nil dereference
+//@   panics when !sessOff(uconn) && (s.locked || s.state != NoSession)
+//@   modifies s.state, s.sessionTicketExt
+//@   ensures inv: SC(s)
+//@   ensures delegates: ret == callres(SetSessionTicketExtension, 0)
+//@   ensures disabled: sessOff(uconn) ==> ret != nil && s.state == old(s.state) && s.sessionTicketExt == old(s.sessionTicketExt)
+//@   ensures owned: !sessOff(uconn) ==> ret == nil && s.sessionTicketExt == callarg(SetSessionTicketExtension, 0, 1) && fresh(s.sessionTicketExt.(*SessionTicketExtension))
+//@   at before call SetSessionTicketExtension#0: assert built: arg0 == uconn && istype(arg1, *SessionTicketExtension) && arg1.(*SessionTicketExtension) != nil && arg1.(*SessionTicketExtension).Initialized
+//@   at before call SetSessionTicketExtension#0: assert asgiven: session != nil ==> arg1.(*SessionTicketExtension).Ticket == session.session.ticket && arg1.(*SessionTicketExtension).Session == session.session
+//@   at before call SetSessionTicketExtension#0: assert unset: session == nil ==> isnil(arg1.(*SessionTicketExtension).Ticket) && arg1.(*SessionTicketExtension).Session == nil
+//@   note the controller state afterwards is SessionTicketExtInitialized because the new extension has Initialized == true ((*SessionTicketExtension).IsInitialized below); at this call site only the abstract ghost(initialized, x) of the interface contract is visible, so the state is not restated here
+
+// =============================================================================================
+// u_conn.go: the steps of buildHandshakeState
+
+// BuildHandshakeState / BuildHandshakeStateWithoutSession: pure delegation, with and without session loading.
+// No modifies clause: buildHandshakeState has a thin contract (verif_contracts_client.go) and unknown effects.
+//@ func (*UConn).BuildHandshakeState
+//@   property C20 C19 C01
+//@   requires uconn != nil
+//@   ensures delegates: called(buildHandshakeState, 0) && callarg(buildHandshakeState, 0, 0) == uconn && callarg(buildHandshakeState, 0, 1) && ret == callres(buildHandshakeState, 0)
+//@   note no modifies clause: everything is done by buildHandshakeState (thin contract, control flow only)
+
+//@ func (*UConn).BuildHandshakeStateWithoutSession
+//@   property C20 C19 C01
+//@   requires uconn != nil
+//@   ensures delegates: called(buildHandshakeState, 0) && callarg(buildHandshakeState, 0, 0) == uconn && !callarg(buildHandshakeState, 0, 1) && ret == callres(buildHandshakeState, 0)
+//@   note loadSession == false: by buildHandshakeState.notloaded neither uLoadSession nor uApplyPatch runs and the controller is not locked, so the session setters are still legal afterwards (C20)
+//@   note no modifies clause: everything is done by buildHandshakeState (thin contract, control flow only)
+
+// ApplyConfig: writeToUConn of every extension, in list order, on this connection; stops at the first error.
+// writeToUConn is an unexported method, so the implementers are the extension types of this package (28 functions);
+// none of them writes uc.Extensions or its elements (checked by inspection: the only field of UConn they assign
+// besides HandshakeState/config is uc.ech, uc.certCompressionAlgs), and the only user code they call is
+// ClientSessionCache.Get (FakePreSharedKeyExtension). That is the assumption `list_kept`; without it nothing is known
+// about the list after the first call (an interface call has unknown effects), not even that element 1 is non-nil.
+//@ func (*UConn).ApplyConfig
+//@   property C01 C20
+//@   let E = uconn.Extensions
+//@   let n = len(uconn.Extensions)
+//@   requires uconn != nil
+//@   requires nonnil: forall j in 0..n: uconn.Extensions[j] != nil
+//@   note nonnil: a nil entry in uconn.Extensions makes ApplyConfig panic (method call on a nil interface)
+//@   note no modifies clause: writeToUConn is an interface call; the effects of the built-in implementers are specified one by one (verif_contracts_link.go and below)
+//@   ensures empty: n == 0 ==> ret == nil
+//@   at before call writeToUConn#0: assert each: arg0 == E[$rangeindex+1] && arg1 == uconn
+//@   at after call writeToUConn#0: assume list_kept: forall j in 0..n: E[j] == old(E[j])
+//@   note list_kept is an ASSUMPTION (see the comment above): writeToUConn implementations leave the extension list alone
+//@   loop 0 invariant -1 <= $rangeindex && $rangeindex < n
+//@   loop 0 invariant forall j in 0..n: E[j] == old(E[j])
+
+// uApplyPatch (after MarshalClientHello): with a psk extension in state Initialized/AllSet the binders are patched
+// into Hello.Raw and the psk state is (re)written to the handshake state; the final assertion is the C19 clause
+// "inserting the real binder leaves the hello length unchanged" (a documented uAssert panic otherwise: PatchBuiltHello
+// of a user-supplied extension may do anything to *hello).
+//@ func (*UConn).uApplyPatch
+//@   property C19 C20
+//@   let s = uconn.sessionController
+//@   let h = uconn.HandshakeState.Hello
+//@   let upd = uconn.sessionController.pskExtension != nil && (uconn.sessionController.state == PskExtInitialized || uconn.sessionController.state == PskExtAllSet)
+//@   requires uconn != nil && SC(uconn.sessionController) && uconn.sessionController.uconnRef == uconn && uconn.HandshakeState.Hello != nil
+//@   opaque tls.(*sessionController).setPskToUConn
+//@   note opaque: the contract of setPskToUConn (verif_contracts_session.go) states its documented panic in terms of callres(GetPreSharedKeyCommon, 0), a value internal to that function, which the generator cannot evaluate at a call site ("no call GetPreSharedKeyCommon#0 in uApplyPatch"). The call is therefore opaque here: its preconditions and the state part of its panic condition are proved by hand (anchor then_state), its verified postconditions inv/allset are imported (anchor imported), and its remaining documented panic -- in state PskExtAllSet the session, early secret or identities of the handshake state no longer equal the extension's -- propagates through uApplyPatch without being restated in `panics when`.
+//@   note no modifies clause, for the same reason (an opaque call havocs the heap)
+//@   panics when upd && !callarg(uAssert, 0, 0)
+//@   ensures inv: SC(s) && uconn.sessionController == s
+//@   ensures samelen: len(uconn.HandshakeState.Hello.Raw) == old(len(uconn.HandshakeState.Hello.Raw))
+//@   ensures nopsk: !upd ==> s.state == old(s.state) && uconn.HandshakeState.Hello == h && h.Raw == old(h.Raw) && h.PskBinders == old(h.PskBinders) && h.PskIdentities == old(h.PskIdentities)
+//@   ensures allset: upd ==> s.state == PskExtAllSet
+//@   at before call updateBinders#0: assert first_patch: arg0 == s && upd
+//@   at before call setPskToUConn#0: assert then_state: arg0 == s && called(updateBinders, 0) && SC(s) && s.uconnRef == uconn && uconn.HandshakeState.Hello != nil && s.pskExtension != nil && (s.state == PskExtInitialized || s.state == PskExtAllSet)
+//@   at after call setPskToUConn#0: assume imported: uconn.sessionController == s && uconn.HandshakeState.Hello == h && SC(s) && s.state == PskExtAllSet
+//@   note imported is an ASSUMPTION at this call site only: SC(s) and the state are verified postconditions (inv, allset) of setPskToUConn, the two pointer equalities are its frame (neither uconn.sessionController nor HandshakeState.Hello is in its modifies clause)
+
+// uLoadSession (before MarshalClientHello): what the controller decides is what is done (thin contract).
+//   disabled     without a cache (or with tickets disabled) nothing is consulted and nothing is set
+//   *_path       shouldSetTicket / shouldSetPsk: the user's initialized extension is written to the handshake state and
+//                the cache is NOT consulted (C20: an injected session is used as given, never replaced by a cached one);
+//                shouldReturn: nothing; shouldLoad: conn.loadSession runs on the private view of the hello
+//   pre_ticket, pre_psk, pre_about (proved, not assumed): on those three paths the callee's preconditions hold and its
+//                documented panic conditions are false, except utlsAboutToLoadSession's: it panics (documented
+//                assertion) when the controller is locked or in an AllSet state while the hello is still NotBuilt,
+//                i.e. after a build that failed between uLoadSession and finalCheck
+//   tls12 / tls13 a loaded TLS 1.2 session goes to the session ticket extension together with hello.sessionTicket,
+//                any other version to the psk extension with the secrets and identities loadSession produced (C19)
+//   error        a non-nil result is loadSession's
+// `unchecked safety pre`: conn.loadSession has a thin contract (unknown effects), after it nothing is known about the
+// heap, so panic-freedom and callee preconditions on the shouldLoad path cannot be proved and are listed assumptions;
+// setPskToUConn is opaque for the reason given at uApplyPatch.
+//@ func (*UConn).uLoadSession
+//@   property C19 C20
+//@   unchecked safety pre
+//@   note unchecked: thin contract, see the comment above
+//@   opaque tls.(*sessionController).setPskToUConn
+//@   let s = uconn.sessionController
+//@   let off = uconn.config.SessionTicketsDisabled || uconn.config.ClientSessionCache == nil
+//@   requires uconn != nil && uconn.Conn != nil && uconn.config != nil && SC(uconn.sessionController) && uconn.sessionController.uconnRef == uconn && uconn.HandshakeState.Hello != nil
+//@   ensures disabled: off ==> ret == nil && !called(shouldLoadSession, 0) && !called(loadSession, 0)
+//@   ensures decided: !off ==> called(shouldLoadSession, 0) && callarg(shouldLoadSession, 0, 0) == s
+//@   ensures skip_path: !off && callres(shouldLoadSession, 0) == shouldReturn ==> ret == nil && !called(loadSession, 0) && !called(setSessionTicketToUConn, 0) && !called(setPskToUConn, 0)
+//@   ensures ticket_path: !off && callres(shouldLoadSession, 0) == shouldSetTicket ==> ret == nil && called(setSessionTicketToUConn, 0) && !called(loadSession, 0)
+//@   ensures psk_path: !off && callres(shouldLoadSession, 0) == shouldSetPsk ==> ret == nil && called(setPskToUConn, 0) && !called(loadSession, 0)
+//@   ensures load_path: !off && callres(shouldLoadSession, 0) == shouldLoad ==> called(utlsAboutToLoadSession, 0) && called(loadSession, 0)
+//@   ensures error: ret != nil ==> called(loadSession, 0)
+//@   ensures one_ext: !(called(initSessionTicketExt, 0) && called(initPskExt, 0))
+//@   at before call setSessionTicketToUConn#0: assert pre_ticket: arg0 == s && SC(s) && s.uconnRef == uconn && uconn.HandshakeState.Hello != nil && s.sessionTicketExt != nil && s.state == SessionTicketExtInitialized
+//@   at before call setPskToUConn#0: assert pre_psk: arg0 == s && SC(s) && s.uconnRef == uconn && uconn.HandshakeState.Hello != nil && s.pskExtension != nil && s.state == PskExtInitialized
+//@   at before call utlsAboutToLoadSession#0: assert pre_about: arg0 == s && SC(s) && s.state != SessionTicketExtInitialized && s.state != PskExtInitialized && uconn.clientHelloBuildStatus == NotBuilt
+//@   at before call loadSession#0: assert hello_view: arg0 == uconn.Conn && arg1 == callres(getPrivatePtr, 0) && arg1 != nil && s.loadSessionTracker == UtlsAboutToCall && s.state == NoSession && !s.locked
+//@   at before call initSessionTicketExt#0: assert tls12: arg1 == callres(loadSession, 0, 0) && arg1 != nil && arg1.version == VersionTLS12 && arg2 == callres(getPrivatePtr, 0).sessionTicket && callres(loadSession, 0, 3) == nil
+//@   at before call setSessionTicketToUConn#1: assert after_init: called(initSessionTicketExt, 0)
+//@   at before call initPskExt#0: assert tls13: arg1 == callres(loadSession, 0, 0) && arg1 != nil && arg1.version != VersionTLS12 && arg2 == callres(loadSession, 0, 1) && arg3 == callres(loadSession, 0, 2) && arg4 == callres(getPrivatePtr, 0).pskIdentities && callres(loadSession, 0, 3) == nil
+
+// extensionsList (the ECH path of MarshalClientHello): one 16-bit id per extension, read from the first two bytes
+// each extension's Read writes into a zeroed 2000-byte scratch buffer.
+// exts_kept is the ASSUMPTION of /verif/contracts/trusted/marshal.vc for TLSExtension.Len/Read, used here for the
+// interface call ext.Read: an extension's Read writes the buffer it is given and extension-private state, in
+// particular it does not edit uconn.Extensions. Without it the second iteration could not even be shown to call a
+// non-nil extension. No modifies clause (Read is an interface call).
+//@ func (*UConn).extensionsList
+//@   property C01
+//@   let E = uconn.Extensions
+//@   let n = len(uconn.Extensions)
+//@   requires uconn != nil
+//@   requires nonnil: forall j in 0..n: uconn.Extensions[j] != nil
+//@   ensures len: len(ret) == n
+//@   ensures alloc: fresh(ret)
+//@   at before call Read#0: assert scratch: arg0 == E[$rangeindex+1] && len(arg1) == 2000 && fresh(arg1) && zeroed(arg1, 0, 2000)
+//@   at after call Read#0: assume exts_kept: forall j in 0..n: E[j] == old(E[j])
+//@   at after call ReadUint16#0: assert two_bytes: res
+//@   loop 0 invariant -1 <= $rangeindex && $rangeindex < n
+//@   loop 0 invariant forall j in 0..n: E[j] == old(E[j])
+//@   loop 0 invariant len(outerExts) == $k && fresh(outerExts)
+//@   note the id is whatever Read left in bytes 0..1 of the scratch buffer: an extension that writes nothing (Len() == 0, or longer than 2000 bytes: io.ErrShortBuffer is ignored) is listed as 0, the code point of server_name; this concerns the ECH outer-extensions list (C15), not the properties served here
+
+// =============================================================================================
+// u_session_ticket.go: SessionTicketExtension (TLS 1.2 resumption), C19 / C20
+// The interface ISessionTicketExtension is specified abstractly in /verif/contracts/trusted/session.vc
+// (ghost(initialized, x)); here the built-in implementer is verified against its own fields:
+// initialized <==> e.Initialized, and what GetSession / GetTicket hand to the controller is what was stored.
+
+//@ func (*SessionTicketExtension).writeToUConn
+//@   property C19 C20
+//@   requires uc != nil && uc.HandshakeState.Hello != nil
+//@   modifies uc.HandshakeState.Hello.TicketSupported
+//@   ensures ret == nil && uc.HandshakeState.Hello.TicketSupported
+//@   note no session data is written at this point (lifecycle: "Write Phase"); Session and SessionTicket of the handshake state are set by sessionController.setSessionTicketToUConn
+
+//@ func (*SessionTicketExtension).IsInitialized
+//@   property C19 C20
+//@   requires e != nil
+//@   pure
+//@   ensures ret <==> e.Initialized
+
+// InitializeByUtls: two documented assertions, then session and ticket are stored as given.
+//@ func (*SessionTicketExtension).InitializeByUtls
+//@   property C19 C20
+//@   requires e != nil
+//@   requires session_nonnil: session != nil
+//@   note session_nonnil comes from the code: the second assertion evaluates session.version BEFORE its own conjunct `session != nil`, so a nil session is a nil dereference, not the documented assertion; the only in-library caller (initSessionTicketExt$1) always passes the loaded, non-nil session
+//@   panics when e.Initialized || session.version != VersionTLS12 || isnil(ticket)
+//@   modifies e.Session, e.Ticket, e.Initialized
+//@   ensures asgiven: e.Session == session && e.Ticket == ticket
+//@   ensures done: e.Initialized
+
+//@ func (*SessionTicketExtension).GetSession
+//@   property C19 C20
+//@   requires e != nil
+//@   pure
+//@   ensures ret == e.Session
+
+//@ func (*SessionTicketExtension).GetTicket
+//@   property C19 C20
+//@   requires e != nil
+//@   pure
+//@   ensures ret == e.Ticket
+
+// =============================================================================================
+// u_pre_shared_key.go: the PreSharedKeyExtension implementers, C19 / C20
+
+// ---- UnimplementedPreSharedKeyExtension: every method is a documented unconditional panic ----
+//@ func UnimplementedPreSharedKeyExtension.mustEmbedUnimplementedPreSharedKeyExtension
+//@   property C20
+//@   pure
+
+//@ func (*UnimplementedPreSharedKeyExtension).IsInitialized
+//@   property C20
+//@   panics when true
+//@   pure
+
+//@ func (*UnimplementedPreSharedKeyExtension).InitializeByUtls
+//@   property C20
+//@   panics when true
+//@   pure
+
+//@ func (*UnimplementedPreSharedKeyExtension).writeToUConn
+//@   property C20
+//@   panics when true
+//@   pure
+
+//@ func (*UnimplementedPreSharedKeyExtension).Len
+//@   property C20
+//@   panics when true
+//@   pure
+
+//@ func (*UnimplementedPreSharedKeyExtension).Read
+//@   property C20
+//@   panics when true
+//@   pure
+
+//@ func (*UnimplementedPreSharedKeyExtension).GetPreSharedKeyCommon
+//@   property C20
+//@   panics when true
+//@   pure
+
+//@ func (*UnimplementedPreSharedKeyExtension).PatchBuiltHello
+//@   property C20
+//@   panics when true
+//@   pure
+
+//@ func (*UnimplementedPreSharedKeyExtension).SetOmitEmptyPsk
+//@   property C20
+//@   panics when true
+//@   pure
+
+// ---- UtlsPreSharedKeyExtension ----
+
+//@ func (*UtlsPreSharedKeyExtension).IsInitialized
+//@   property C19 C20
+//@   requires e != nil
+//@   pure
+//@   ensures ret <==> e.Session != nil
+
+//@ func (*UtlsPreSharedKeyExtension).writeToUConn
+//@   property C19 C20
+//@   requires uc != nil && uc.HandshakeState.Hello != nil
+//@   modifies uc.HandshakeState.Hello.TicketSupported
+//@   ensures ret == nil && uc.HandshakeState.Hello.TicketSupported
+//@   note no session data is written to the UConn in the write phase (the documented lifecycle of a PreSharedKeyExtension)
+
+//@ func (*UtlsPreSharedKeyExtension).GetPreSharedKeyCommon
+//@   property C19 C20
+//@   requires e != nil
+//@   pure
+//@   ensures asgiven: ret.Identities == e.Identities && ret.Binders == e.Binders && ret.BinderKey == e.BinderKey && ret.EarlySecret == e.EarlySecret && ret.Session == e.Session
+//@   note PreSharedKeyCommon has exactly these five fields
+
+//@ func (*UtlsPreSharedKeyExtension).SetOmitEmptyPsk
+//@   property C19 C20
+//@   requires e != nil
+//@   modifies e.OmitEmptyPsk
+//@   ensures e.OmitEmptyPsk == val
+
+// InitializeByUtls (called through the controller with the session loaded from the cache): everything is stored as
+// given, the cipher suite is looked up from the session, and one zero placeholder binder of the suite's hash length is
+// made per identity. C19 "inserting the real binder leaves the hello length unchanged": the hello is marshalled with
+// these placeholders, and clientHelloMsg.updateBinders (PatchBuiltHello) accepts a real binder only if it has the same length.
+// session_nonnil / knownsuite / hashes come from the code: e.Session.cipherSuite and e.cipherSuite.hash are read
+// without nil checks, crypto.Hash.Size panics for an unknown hash (hashes: every entry of the package table
+// cipherSuitesTLS13 names a real hash -- SHA-256 = 5 and SHA-384 = 6 in the source; table contents are not visible
+// to the generator, hence a precondition).
+//@ func (*UtlsPreSharedKeyExtension).InitializeByUtls
+//@   property C19 C20
+//@   let n = len(identities)
+//@   requires e != nil
+//@   requires session_nonnil: session != nil
+//@   requires suites13OK()
+//@   requires hashes: forall i in 0..len(cipherSuitesTLS13): 0 < cipherSuitesTLS13[i].hash && cipherSuitesTLS13[i].hash < 20
+//@   requires knownsuite: len(identities) > 0 ==> exists i in 0..len(cipherSuitesTLS13): cipherSuitesTLS13[i].id == session.cipherSuite
+//@   modifies e.Session, e.EarlySecret, e.BinderKey, e.cipherSuite, e.Identities, e.Binders
+//@   ensures asgiven: e.Session == session && e.EarlySecret == earlySecret && e.BinderKey == binderKey && e.Identities == identities
+//@   ensures suite: e.cipherSuite == callres(cipherSuiteTLS13ByID, 0) && (e.cipherSuite != nil ==> e.cipherSuite.id == session.cipherSuite)
+//@   ensures binders: len(e.Binders) == n && fresh(e.Binders)
+//@   ensures placeholders: forall j in 0..n: len(e.Binders[j]) == hashlen(e.cipherSuite.hash) && fresh(e.Binders[j])
+//@   ensures zero: forall j in 0..n: zeroed(e.Binders[j], 0, len(e.Binders[j]))
+//@   loop 0 invariant 0 <= i && i <= n
+//@   loop 0 invariant e.Identities == identities && e.Session == session && e.EarlySecret == earlySecret && e.BinderKey == binderKey && e.cipherSuite == callres(cipherSuiteTLS13ByID, 0)
+//@   loop 0 invariant len(e.Binders) == i && fresh(e.Binders)
+//@   loop 0 invariant forall j in 0..i: len(e.Binders[j]) == hashlen(e.cipherSuite.hash) && fresh(e.Binders[j])
+//@   loop 0 invariant forall j in 0..i: zeroed(e.Binders[j], 0, len(e.Binders[j]))
+
+// PatchBuiltHello (thin contract: anchors and control flow; the callees marshalWithoutBinders, finishedHash,
+// clientHelloMsg.updateBinders and the cryptobyte builder have no contract, so after them nothing is known about the
+// heap and panic-freedom / callee preconditions are listed assumptions):
+//   nil_iff            nil is returned exactly when there is nothing to patch (Len() == 0); every other return is
+//                      non-nil: io.EOF on success (the io.Reader convention uTLS uses for "done"), an error otherwise
+//   original_is_raw    the private view that is patched has original == hello.Raw (so marshalWithoutBinders cuts the
+//                      placeholder binders off the marshalled hello, nothing is re-marshalled) and carries the
+//                      extension's placeholder binders; it is the cached private hello when there is one
+//   suite_hash, transcript, binder_key
+//                      the binder is finishedHash(BinderKey, H(hello without binders)) under the session's suite
+//   one_binder         exactly one binder is computed and offered to updateBinders (which rejects any change of
+//                      number or length: C19 "the hello length is unchanged")
+//   in_place           the binders are written by a fixed-size builder over original[:len(hello without binders)],
+//                      i.e. into the array of hello.Raw, not into a copy
+//   success, failure   when the builder ran and the internal-error return was not taken the result is io.EOF,
+//                      updateBinders accepted and e.Binders is the slice handed to it
+//@ func (*UtlsPreSharedKeyExtension).PatchBuiltHello
+//@   property C19 C20
+//@   unchecked safety pre
+//@   note unchecked: thin contract, see the comment above; panic-freedom of this function and the preconditions of its callees are listed assumptions
+//@   requires e != nil && hello != nil
+//@   ensures nil_iff: ret == nil <==> callres(Len, 0) == 0
+//@   ensures nothing_to_patch: callres(Len, 0) == 0 ==> !called(getCachedPrivatePtr, 0) && !called(updateBinders, 0)
+//@   ensures success: called(Bytes, 0) && !called(errors.New, 0) ==> ret == io.EOF && callres(updateBinders, 0) == nil && e.Binders == callarg(updateBinders, 0, 1)
+//@   ensures failure: called(errors.New, 0) ==> ret == callres(errors.New, 0) && ret != nil
+//@   at before call marshalWithoutBinders#0: assert original_is_raw: arg0 != nil && arg0.original == hello.Raw && arg0.pskBinders == e.Binders
+//@   at before call marshalWithoutBinders#0: assert view: arg0 == ite(callres(getCachedPrivatePtr, 0) != nil, callres(getCachedPrivatePtr, 0), callres(getPrivatePtr, 0))
+//@   at before call New#0: assert suite_hash: arg0 == e.cipherSuite.hash
+//@   at before call Write#0: assert transcript: arg0 == callres(New, 0) && arg1 == callres(marshalWithoutBinders, 0, 0)
+//@   at before call finishedHash#0: assert binder_key: arg0 == e.cipherSuite && arg1 == e.BinderKey && arg2 == callres(New, 0)
+//@   note not provable: "updateBinders gets the same private view as marshalWithoutBinders" -- the local `private` is captured by the builder continuation, so for the generator its cell is reachable by the uncontracted calls in between (Write, finishedHash) and is havocked by them
+//@   at before call updateBinders#0: assert one_binder: len(arg1) == 1 && arg1[0] == callres(finishedHash, 0)
+//@   at before call NewFixedBuilder#0: assert in_place: arr(arg0) == arr(callarg(updateBinders, 0, 0).original) && off(arg0) == off(callarg(updateBinders, 0, 0).original) && len(arg0) == len(callres(marshalWithoutBinders, 0, 0))
+
+// the two builder continuations: every binder of the private hello is added, 8-bit length prefixed, in list order
+//@ func (*UtlsPreSharedKeyExtension).PatchBuiltHello$1
+//@   property C19
+//@   unchecked safety pre
+//@   note unchecked: thin contract; AddUint8LengthPrefixed (x/crypto/cryptobyte) calls the continuation, unknown effects
+//@   requires private != nil && *private != nil && b != nil
+//@   at before call AddUint8LengthPrefixed#0: assert same_builder: arg0 == b
+//@   loop 0 invariant -1 <= $rangeindex
+
+//@ func (*UtlsPreSharedKeyExtension).PatchBuiltHello$1$1
+//@   property C19
+//@   requires binder != nil && b != nil
+//@   at before call AddBytes#0: assert the_binder: arg0 == b && arg1 == *binder
+//@   note no modifies clause: (*cryptobyte.Builder).AddBytes has no contract
+
+// ---- FakePreSharedKeyExtension ----
+
+// writeToUConn: the fake extension copies its identities and binders into the hello, but only when the session
+// cache holds some session for this connection's key. ClientSessionCache.Get is user code and clientSessionCacheKey
+// asks the net.Conn for its address: both have unknown effects, hence no modifies clause and the assumption
+// `cache_is_passive` (consulting the cache does not replace the connection's hello object).
+//@ func (*FakePreSharedKeyExtension).writeToUConn
+//@   property C20 C19
+//@   requires e != nil && uc != nil && uc.Conn != nil && uc.config != nil && uc.HandshakeState.Hello != nil
+//@   ensures ok: ret == nil
+//@   ensures nocache: old(uc.config.ClientSessionCache) == nil ==> !called(Get, 0)
+//@   ensures asgiven: called(Get, 0) && callres(Get, 0, 1) && callres(Get, 0, 0) != nil ==> uc.HandshakeState.Hello.PskIdentities == e.Identities && uc.HandshakeState.Hello.PskBinders == e.Binders
+//@   at before call Get#0: assert key: arg0 == old(uc.config.ClientSessionCache) && arg1 == callres(clientSessionCacheKey, 0)
+//@   at after call Get#0: assume cache_is_passive: uc.HandshakeState.Hello == old(uc.HandshakeState.Hello)
+//@   note cache_is_passive is an ASSUMPTION about the user's ClientSessionCache (true for the built-in lruSessionCache, whose Get only reorders its own list: verif_contracts_roller.go) and about net.Conn.RemoteAddr
+//@   note no modifies clause: see the comment above
+
+//@ func (*FakePreSharedKeyExtension).IsInitialized
+//@   property C20
+//@   requires e != nil
+//@   pure
+//@   ensures ret <==> !isnil(e.Identities) && !isnil(e.Binders)
+
+//@ func (*FakePreSharedKeyExtension).InitializeByUtls
+//@   property C20
+//@   panics when true
+//@   pure
+//@   note documented panic: "don't let utls initialize FakePreSharedKeyExtension"
+
+//@ func (*FakePreSharedKeyExtension).SetOmitEmptyPsk
+//@   property C20
+//@   requires e != nil
+//@   modifies e.OmitEmptyPsk
+//@   ensures e.OmitEmptyPsk == val
+
+//@ func (*FakePreSharedKeyExtension).GetPreSharedKeyCommon
+//@   property C20
+//@   requires e != nil
+//@   pure
+//@   ensures asgiven: ret.Identities == e.Identities && ret.Binders == e.Binders
+//@   ensures nosecrets: isnil(ret.BinderKey) && isnil(ret.EarlySecret) && ret.Session == nil
+
+//@ func (*FakePreSharedKeyExtension).PatchBuiltHello
+//@   property C20 C19
+//@   pure
+//@   ensures ret == nil
+//@   note the fake extension keeps the binders it was given: nothing is patched, so the hello length cannot change
+
+// =============================================================================================
+// u_public.go: ClientSessionState -- the public handle of a (possibly forged) session, C20 / C35 / C31.
+// ClientSessionState has the single field `session`; constructor, getters and setters are a field-by-field view
+// of the SessionState behind it ("carries exactly the supplied version, suite and master secret").
+
+//@ func MakeClientSessionState
+//@   property C20 C35 C31
+//@   modifies nothing
+//@   ensures fresh: ret != nil && fresh(ret) && ret.session != nil && fresh(ret.session)
+//@   ensures ticket: ret.session.ticket == SessionTicket
+//@   ensures version: ret.session.version == Vers
+//@   ensures cipherSuite: ret.session.cipherSuite == CipherSuite
+//@   ensures secret: ret.session.secret == MasterSecret
+//@   ensures peerCertificates: ret.session.peerCertificates == ServerCertificates
+//@   ensures verifiedChains: ret.session.verifiedChains == VerifiedChains
+//@   ensures rest_zero: !ret.session.extMasterSecret && !ret.session.isClient && !ret.session.EarlyData && ret.session.createdAt == 0 && ret.session.useBy == 0 && ret.session.ageAdd == 0 && isnil(ret.session.Extra) && isnil(ret.session.ocspResponse) && isnil(ret.session.scts) && isnil(ret.session.activeCertHandles) && len(ret.session.alpnProtocol) == 0
+//@   note the six arguments are stored as given (same slices, no copies). Everything else is the zero value: extMasterSecret == false (TODO in the source: "Add EMS to this constructor"; use SetEMS), createdAt == 0, useBy == 0, ageAdd == 0 (setters below) and isClient == false (no setter)
+
+// The getters dereference css.session without a nil check (precondition `has`); a zero ClientSessionState{} has no session.
+//@ func (*ClientSessionState).SessionTicket
+//@   property C20 C35 C31
+//@   requires has: css != nil && css.session != nil
+//@   pure
+//@   ensures ret == css.session.ticket
+
+//@ func (*ClientSessionState).Vers
+//@   property C20 C35 C31
+//@   requires has: css != nil && css.session != nil
+//@   pure
+//@   ensures ret == css.session.version
+
+//@ func (*ClientSessionState).CipherSuite
+//@   property C20 C35 C31
+//@   requires has: css != nil && css.session != nil
+//@   pure
+//@   ensures ret == css.session.cipherSuite
+
+//@ func (*ClientSessionState).MasterSecret
+//@   property C20 C35 C31
+//@   requires has: css != nil && css.session != nil
+//@   pure
+//@   ensures ret == css.session.secret
+
+//@ func (*ClientSessionState).EMS
+//@   property C20 C19 C31
+//@   requires has: css != nil && css.session != nil
+//@   pure
+//@   ensures ret <==> css.session.extMasterSecret
+
+//@ func (*ClientSessionState).ServerCertificates
+//@   property C20 C31
+//@   requires has: css != nil && css.session != nil
+//@   pure
+//@   ensures ret == css.session.peerCertificates
+
+//@ func (*ClientSessionState).VerifiedChains
+//@   property C20 C31
+//@   requires has: css != nil && css.session != nil
+//@   pure
+//@   ensures ret == css.session.verifiedChains
+
+// upstream (ticket.go): what a ClientSessionCache.Put implementation reads
+//@ func (*ClientSessionState).ResumptionState
+//@   property C20 C35 C31
+//@   pure
+//@   ensures none: cs == nil || cs.session == nil ==> isnil(ticket) && state == nil && err == nil
+//@   ensures some: cs != nil && cs.session != nil ==> ticket == cs.session.ticket && state == cs.session && err == nil
+
+// The setters create the SessionState on demand -- all but SetSessionTicket, which dereferences css.session
+// unconditionally (precondition `has`): on a zero ClientSessionState{} it must not be the first setter called.
+// sessKept: an existing session object is kept; sessNew: otherwise a fresh one is installed.
+//@ spec sessKept(css, s0) = css.session != nil && (s0 != nil ==> css.session == s0)
+//@ func (*ClientSessionState).SetSessionTicket
+//@   property C20 C35 C31
+//@   requires has: css != nil && css.session != nil
+//@   modifies css.session.ticket
+//@   ensures css.session.ticket == SessionTicket
+//@   note unlike the nine other setters there is no `if css.session == nil` here: (&ClientSessionState{}).SetSessionTicket(t) is a nil dereference
+
+//@ func (*ClientSessionState).SetVers
+//@   property C20 C35 C31
+//@   requires css != nil
+//@   modifies css.session, css.session.version
+//@   ensures sess: sessKept(css, old(css.session)) && (old(css.session) == nil ==> fresh(css.session))
+//@   ensures set: css.session.version == Vers
+
+//@ func (*ClientSessionState).SetCipherSuite
+//@   property C20 C35 C31
+//@   requires css != nil
+//@   modifies css.session, css.session.cipherSuite
+//@   ensures sess: sessKept(css, old(css.session)) && (old(css.session) == nil ==> fresh(css.session))
+//@   ensures set: css.session.cipherSuite == CipherSuite
+
+//@ func (*ClientSessionState).SetCreatedAt
+//@   property C20 C31
+//@   requires css != nil
+//@   modifies css.session, css.session.createdAt
+//@   ensures sess: sessKept(css, old(css.session)) && (old(css.session) == nil ==> fresh(css.session))
+//@   ensures set: css.session.createdAt == createdAt
+
+//@ func (*ClientSessionState).SetMasterSecret
+//@   property C20 C35 C31
+//@   requires css != nil
+//@   modifies css.session, css.session.secret
+//@   ensures sess: sessKept(css, old(css.session)) && (old(css.session) == nil ==> fresh(css.session))
+//@   ensures set: css.session.secret == MasterSecret
+
+//@ func (*ClientSessionState).SetEMS
+//@   property C20 C19 C31
+//@   requires css != nil
+//@   modifies css.session, css.session.extMasterSecret
+//@   ensures sess: sessKept(css, old(css.session)) && (old(css.session) == nil ==> fresh(css.session))
+//@   ensures set: css.session.extMasterSecret <==> ems
+
+//@ func (*ClientSessionState).SetServerCertificates
+//@   property C20 C31
+//@   requires css != nil
+//@   modifies css.session, css.session.peerCertificates
+//@   ensures sess: sessKept(css, old(css.session)) && (old(css.session) == nil ==> fresh(css.session))
+//@   ensures set: css.session.peerCertificates == ServerCertificates
+
+//@ func (*ClientSessionState).SetVerifiedChains
+//@   property C20 C31
+//@   requires css != nil
+//@   modifies css.session, css.session.verifiedChains
+//@   ensures sess: sessKept(css, old(css.session)) && (old(css.session) == nil ==> fresh(css.session))
+//@   ensures set: css.session.verifiedChains == VerifiedChains
+
+//@ func (*ClientSessionState).SetUseBy
+//@   property C20 C31
+//@   requires css != nil
+//@   modifies css.session, css.session.useBy
+//@   ensures sess: sessKept(css, old(css.session)) && (old(css.session) == nil ==> fresh(css.session))
+//@   ensures set: css.session.useBy == useBy
+
+//@ func (*ClientSessionState).SetAgeAdd
+//@   property C20 C31
+//@   requires css != nil
+//@   modifies css.session, css.session.ageAdd
+//@   ensures sess: sessKept(css, old(css.session)) && (old(css.session) == nil ==> fresh(css.session))
+//@   ensures set: css.session.ageAdd == ageAdd
+//@   note round trip getter(setter(x)) == x for the seven fields with a getter follows by composing the two clauses; createdAt, useBy and ageAdd have a setter but no getter
+
+//@ func (*PubClientHelloMsg).getCachedPrivatePtr
+//@   property C31 C19
+//@   pure
+//@   ensures nil: chm == nil ==> ret == nil
+//@   ensures cached: chm != nil ==> ret == chm.cachedPrivateHello
+
+// TicketKeys.ToPrivate / ticketKeys.ToPublic stay PARKED (see the end of verif_contracts_public.go): tried again here,
+// the generator still answers "UNSUPPORTED u_public.go:851: append to slice of structs with array-typed field"
+// (`make` of such slices is supported by now, `append` is not), and ticketKeys.ToPublic has no SSA function (never called).
+// The element conversions TicketKey.ToPrivate / ticketKey.ToPublic are verified in verif_contracts_public.go.
+
+// =============================================================================================
+// u_alias.go: the deprecated KeySharesParameters ("not used and will be removed"): an empty struct whose methods
+// store nothing and find nothing. C31: it is NOT a view of the key shares (KeySharePrivateKeys is).
+
+//@ func NewKeySharesParameters
+//@   property C31
+//@   modifies nothing
+//@   ensures ret != nil
+
+//@ func (*KeySharesParameters).AddEcdheKeypair
+//@   property C31
+//@   pure
+
+//@ func (*KeySharesParameters).AddKemKeypair
+//@   property C31
+//@   pure
+
+//@ func (*KeySharesParameters).GetEcdheKey
+//@   property C31
+//@   pure
+//@   ensures notfound: ecdheKey == nil && !ok
+
+//@ func (*KeySharesParameters).GetEcdhePubkey
+//@   property C31
+//@   pure
+//@   ensures notfound: params == nil && !ok
+
+//@ func (*KeySharesParameters).GetKemKey
+//@   property C31
+//@   pure
+//@   ensures notfound: kemKey == nil && !ok
+
+//@ func (*KeySharesParameters).GetKemPubkey
+//@   property C31
+//@   pure
+//@   ensures notfound: params == nil && !ok
